@@ -75,14 +75,15 @@ Definition huff_decode (t : htable) (st : rstate) : option (Z * rstate) :=
   decode_loop (ht_mmv t) (ht_vals t) 0 st.
 
 (* ReceiveExtend(ssss): ssss may be anything in 0..255 when the table is hostile *)
+(* EXTEND: val := int(bits); if val < (1 << (ssss-1)) { val += (-1 << ssss) + 1 } *)
+Definition extend_val (ssss v : Z) : Z :=
+  if v <? shl64 1 (ssss - 1) then v + (shl64 (-1) ssss + 1) else v.
 Definition receive_extend (st : rstate) (ssss : Z) : option (Z * rstate) :=
   if ssss =? 0 then Some (0, st)
   else
     match read_bits st ssss with
     | None => None
-    | Some (v, st') =>
-      let v' := if v <? shl64 1 (ssss - 1) then v + (shl64 (-1) ssss + 1) else v in
-      Some (v', st')
+    | Some (v, st') => Some (extend_val ssss v, st')
     end.
 (* ReceiveLosslessDifference *)
 Definition receive_lossless (st : rstate) (cat : Z) : option (Z * rstate) :=
